@@ -375,7 +375,8 @@ builtin_exec(spif_charptr_t param)
         rewind(fp);
         if (fsize) {
             Output = (spif_charptr_t) MALLOC(fsize + 1);
-            fread(Output, fsize, 1, fp);
+            /* The read may fail or come up short; only what was read is output. */
+            fsize = (spif_uint32_t) fread(Output, 1, fsize, fp);
             Output[fsize] = 0;
             fclose(fp);
             remove((char *) OutFile);
